@@ -11,6 +11,8 @@ import Proofs.Resolve
 import Proofs.Range
 import Proofs.Traverse
 import Proofs.ResolveNodes
+import Proofs.ChildAt
+import Proofs.SepSpec
 namespace PM.C09
 open PM
 
@@ -798,5 +800,277 @@ theorem nodeRangeInfo_spec (rf rt : RPos) (d : Nat) (hf : d ≤ rf.depth) (ht : 
   obtain ⟨s, hs⟩ := hb
   obtain ⟨e, he⟩ := ha
   exact ⟨s, e, by simp [hs, he], hs, he⟩
+
+/-! ### child_after, child_before, index_after -/
+
+/-- **child_after(pos)** (`Fragment.find_index`): raises exactly for `pos` past the content.  Otherwise
+    it returns index `i` and offset `off` where `off` is the start of child `i` (the sizes of the
+    children before it, text counted in UTF-16 units), every child before `i` starts strictly before
+    `pos`, and either `pos = off` (a boundary) or `pos` lies strictly inside child `i`.  These facts
+    determine `i` (`childAfter_index_unique`).  The node is `kids[i]`, missing only at the end of the
+    content; on tokens: the window of the document at `off` of the child's size spells the child,
+    and that window contains `pos` (unless the child is an empty text node). -/
+theorem childAfter_spec (kids : List Node) (pos : Nat) :
+    (childAfter kids pos = none ↔ fsize kids < pos) ∧
+    ∀ n i off, childAfter kids pos = some (n, i, off) →
+      n = kids[i]? ∧ i ≤ kids.length ∧ off = fsize (kids.take i) ∧ off ≤ pos ∧
+      (∀ k, k < i → fsize (kids.take k) < pos) ∧
+      (n = none ↔ i = kids.length) ∧ (n = none → pos = fsize kids) ∧
+      ∀ c, n = some c →
+        window (ftoks kids) off c.size = c.toks ∧ off + c.size ≤ fsize kids ∧
+        (pos = off ∨ pos < off + c.size) ∧ (c.size ≠ 0 → pos < off + c.size) := by
+  obtain ⟨f1, f2⟩ := findIndex_spec kids pos
+  unfold childAfter
+  refine ⟨by rw [Option.map_eq_none_iff]; exact f1, fun n i off h => ?_⟩
+  cases hfi : findIndex kids pos with
+  | none => simp [hfi] at h
+  | some io =>
+    obtain ⟨i', off'⟩ := io
+    simp only [hfi, Option.map_some, Option.some.injEq, Prod.mk.injEq] at h
+    obtain ⟨rfl, rfl, rfl⟩ := h
+    obtain ⟨hoff, g1, g2, g3, g4⟩ := f2 _ _ hfi
+    have hle : pos ≤ fsize kids := by
+      rcases Nat.lt_or_ge (fsize kids) pos with hlt | hge
+      · rw [f1.mpr hlt] at hfi; simp at hfi
+      · exact hge
+    refine ⟨rfl, g1, hoff, by omega, g3, ?_, ?_, ?_⟩
+    · rw [List.getElem?_eq_none_iff]; omega
+    · intro hn
+      rw [List.getElem?_eq_none_iff] at hn
+      have : i' = kids.length := by omega
+      rw [this, List.take_length] at g2
+      omega
+    · intro c hc
+      have hsz := child_size_le kids _ c hc
+      refine ⟨by rw [hoff]; exact window_child0 kids _ c hc, by omega, ?_, ?_⟩
+      · rcases g4 with g4 | ⟨c', hc', g4⟩
+        · left; omega
+        · rw [hc] at hc'; simp only [Option.some.injEq] at hc'; subst hc'
+          right; omega
+      · intro hne
+        rcases g4 with g4 | ⟨c', hc', g4⟩
+        · omega
+        · rw [hc] at hc'; simp only [Option.some.injEq] at hc'; subst hc'
+          omega
+
+/-- the index facts of `childAfter_spec` pin the index -/
+theorem childAfter_index_unique (kids : List Node) (pos i j : Nat)
+    (hi : i ≤ kids.length ∧ fsize (kids.take i) ≤ pos ∧ (∀ k, k < i → fsize (kids.take k) < pos) ∧
+      (fsize (kids.take i) = pos ∨ ∃ c, kids[i]? = some c ∧ pos < fsize (kids.take i) + c.size))
+    (hj : j ≤ kids.length ∧ fsize (kids.take j) ≤ pos ∧ (∀ k, k < j → fsize (kids.take k) < pos) ∧
+      (fsize (kids.take j) = pos ∨ ∃ c, kids[j]? = some c ∧ pos < fsize (kids.take j) + c.size)) :
+    i = j :=
+  FoundIndex.unique hi hj
+
+/-- **child_before(pos)**: raises exactly for `pos` past the content; at `pos = 0` there is no child
+    (`(None, 0, 0)`); otherwise it returns a child `c = kids[i]` starting at `off` with
+    `off ≤ pos ≤ off + size(c)`, and `off < pos` unless `c` is an empty text node: the child strictly
+    containing `pos`, or at a boundary the child *ending* there.  Relative to `child_after`: the same
+    answer when `pos` is strictly inside a child, the previous index at a boundary. -/
+theorem childBefore_spec (kids : List Node) (pos : Nat) :
+    (childBefore kids pos = none ↔ fsize kids < pos) ∧
+    (pos = 0 → childBefore kids pos = some (none, 0, 0)) ∧
+    ∀ n i off, childBefore kids pos = some (n, i, off) → 0 < pos →
+      ∃ c, n = some c ∧ kids[i]? = some c ∧ off = fsize (kids.take i) ∧
+        off ≤ pos ∧ pos ≤ off + c.size ∧ (c.size ≠ 0 → off < pos) ∧
+        window (ftoks kids) off c.size = c.toks ∧
+        ∀ n' i' off', childAfter kids pos = some (n', i', off') →
+          (off' < pos → n' = some c ∧ i' = i ∧ off' = off ∧ pos < off + c.size) ∧
+          (off' = pos → i + 1 = i' ∧ off + c.size = pos) := by
+  obtain ⟨f1, f2⟩ := findIndex_spec kids pos
+  refine ⟨?_, fun h0 => by simp [childBefore, h0], ?_⟩
+  · unfold childBefore
+    by_cases h0 : pos = 0
+    · simp [h0]
+    · simp only [h0, if_false]
+      cases hfi : findIndex kids pos with
+      | none => simp [← f1, hfi]
+      | some io =>
+        obtain ⟨i', off'⟩ := io
+        obtain ⟨hoff, g1, g2, g3, g4⟩ := f2 _ _ hfi
+        have hle : ¬ fsize kids < pos := by
+          intro hlt; rw [f1.mpr hlt] at hfi; simp at hfi
+        simp only [hle, iff_false]
+        by_cases hlt : off' < pos
+        · simp [hlt]
+        · simp only [hlt, if_false]
+          have hi0 : i' ≠ 0 := by
+            intro hz; subst hz; simp at hoff; omega
+          have : i' - 1 < kids.length := by omega
+          rw [List.getElem?_eq_getElem this]; simp
+  · intro n i off h hpos
+    unfold childBefore at h
+    simp only [show pos ≠ 0 by omega, if_false] at h
+    cases hfi : findIndex kids pos with
+    | none => simp [hfi] at h
+    | some io =>
+      obtain ⟨i', off'⟩ := io
+      obtain ⟨hoff, g1, g2, g3, g4⟩ := f2 _ _ hfi
+      simp only [hfi] at h
+      have hca : childAfter kids pos = some (kids[i']?, i', off') := by simp [childAfter, hfi]
+      by_cases hlt : off' < pos
+      · simp only [hlt, if_true, Option.some.injEq, Prod.mk.injEq] at h
+        obtain ⟨rfl, rfl, rfl⟩ := h
+        rcases g4 with g4 | ⟨c, hc, g4⟩
+        · omega
+        · refine ⟨c, hc, hc, hoff, by omega, by omega, fun _ => hlt,
+            by rw [hoff]; exact window_child0 kids _ c hc, fun n' i'' off'' h' => ?_⟩
+          rw [hca] at h'
+          simp only [Option.some.injEq, Prod.mk.injEq] at h'
+          obtain ⟨rfl, rfl, rfl⟩ := h'
+          exact ⟨fun _ => ⟨hc, rfl, rfl, by omega⟩, fun _ => by omega⟩
+      · simp only [hlt, if_false] at h
+        have hi0 : i' ≠ 0 := by
+          intro hz; subst hz; simp at hoff; omega
+        have hlen : i' - 1 < kids.length := by omega
+        have hc : kids[i' - 1]? = some kids[i' - 1] := List.getElem?_eq_getElem hlen
+        rw [hc] at h
+        simp only [Option.some.injEq, Prod.mk.injEq] at h
+        obtain ⟨rfl, rfl, rfl⟩ := h
+        have hs := fsize_take_succ kids (i' - 1) _ hc
+        rw [show i' - 1 + 1 = i' by omega] at hs
+        have hst := g3 (i' - 1) (by omega)
+        refine ⟨_, rfl, hc, by omega, by omega, by omega, fun hne => by omega,
+          ?_, fun n' i'' off'' h' => ?_⟩
+        · have := window_child0 kids _ _ hc
+          rw [show off' - kids[i' - 1].size = fsize (kids.take (i' - 1)) by omega]
+          exact this
+        · rw [hca] at h'
+          simp only [Option.some.injEq, Prod.mk.injEq] at h'
+          obtain ⟨rfl, rfl, rfl⟩ := h'
+          exact ⟨fun h => by omega, fun _ => ⟨by omega, by omega⟩⟩
+
+/-- **index(d) is find_index**: at every level the index of a resolved position is what
+    `child_after` finds for the offset into that ancestor -/
+theorem index_childAfter (doc : Node) (pos : Nat) (r : RPos) (h : doc.resolve pos = some r)
+    (k : Nat) (hk : k ≤ r.depth) :
+    childAfter (r.node k).kids (pos - r.start k) =
+      some ((r.node k).kids[r.index k]?, r.index k, (r.entry k).pos - r.start k) := by
+  have F := resolve_foundIndex h k hk
+  have E := (resolve_resolved h).entry k hk
+  have hle : ¬ fsize (r.node k).kids < pos - r.start k := by
+    have := E.le_end
+    have hn : (r.entry k).node = r.node k := rfl
+    rw [hn] at this; omega
+  obtain ⟨f1, f2⟩ := findIndex_spec (r.node k).kids (pos - r.start k)
+  cases hfi : findIndex (r.node k).kids (pos - r.start k) with
+  | none => exact (hle (f1.mp hfi)).elim
+  | some io =>
+    obtain ⟨i', off'⟩ := io
+    obtain ⟨hoff, g⟩ := f2 _ _ hfi
+    have : i' = r.index k := FoundIndex.unique g F
+    subst this
+    have hp := E.pos_eq
+    have hidx : (r.entry k).index = r.index k := rfl
+    have hnode : (r.entry k).node = r.node k := rfl
+    rw [hidx, hnode] at hp
+    simp only [childAfter, hfi, Option.map_some, Option.some.injEq, Prod.mk.injEq, true_and]
+    omega
+
+/-- **index_after(d)** = `index(d)`, plus one unless `d` is the position's own depth and the position
+    is at a child boundary there.  On the token picture: it is the number of children of the
+    depth-`d` ancestor that start strictly before the position — the whole children before it and
+    the one it has entered, if any; the children from `index_after(d)` on start at or after it. -/
+theorem indexAfter_spec (doc : Node) (pos : Nat) (r : RPos) (h : doc.resolve pos = some r)
+    (k : Nat) (hk : k ≤ r.depth) :
+    r.indexAfter k ≤ (r.node k).kids.length ∧
+    (∀ j, j < r.indexAfter k → r.start k + fsize ((r.node k).kids.take j) < pos) ∧
+    pos ≤ r.start k + fsize ((r.node k).kids.take (r.indexAfter k)) ∧
+    r.indexAfter k = ((List.range (r.node k).kids.length).countP
+      (fun j => decide (r.start k + fsize ((r.node k).kids.take j) < pos))) ∧
+    (r.indexAfter k = r.index k ↔ pos = (r.entry k).pos) ∧
+    (r.indexAfter k = r.index k ∨
+      (r.indexAfter k = r.index k + 1 ∧ ∃ c, (r.node k).kids[r.index k]? = some c ∧
+        (r.entry k).pos < pos ∧ pos < (r.entry k).pos + c.size)) := by
+  have R := resolve_resolved h
+  have E := R.entry k hk
+  have hp := E.pos_eq; have hpl := E.pos_le
+  have hidx : (r.entry k).index = r.index k := rfl
+  have hnode : (r.entry k).node = r.node k := rfl
+  rw [hidx, hnode] at hp
+  have hil := E.idx_le
+  rw [hidx, hnode] at hil
+  have hmin := resolve_min h k hk
+  have key : r.indexAfter k ≤ (r.node k).kids.length ∧
+      (∀ j, j < r.indexAfter k → r.start k + fsize ((r.node k).kids.take j) < pos) ∧
+      pos ≤ r.start k + fsize ((r.node k).kids.take (r.indexAfter k)) ∧
+      (r.indexAfter k = r.index k ↔ pos = (r.entry k).pos) ∧
+      (r.indexAfter k = r.index k ∨
+        (r.indexAfter k = r.index k + 1 ∧ ∃ c, (r.node k).kids[r.index k]? = some c ∧
+          (r.entry k).pos < pos ∧ pos < (r.entry k).pos + c.size)) := by
+    by_cases hb : k = r.depth ∧ r.textOffset = 0
+    · have hia : r.indexAfter k = r.index k := by
+        simp [RPos.indexAfter, hb.1, hb.2]
+      have hto := hb.2
+      simp only [RPos.textOffset, R.pos_eq, ← hb.1] at hto
+      have hpe : pos = (r.entry k).pos := by omega
+      rw [hia]
+      exact ⟨hil, hmin, by omega, ⟨fun _ => hpe, fun _ => rfl⟩, Or.inl rfl⟩
+    · have hia : r.indexAfter k = r.index k + 1 := by
+        unfold RPos.indexAfter
+        have : (k = r.depth && r.textOffset = 0) = false := by
+          rcases Nat.lt_or_ge k r.depth with hlt | hge
+          · simp [show k ≠ r.depth by omega]
+          · have hkd : k = r.depth := by omega
+            have : r.textOffset ≠ 0 := fun h0 => hb ⟨hkd, h0⟩
+            simp [this]
+        simp [this]
+      obtain ⟨c, hc, h1, h2⟩ := resolve_entered h k hk hb
+      have hs := fsize_take_succ _ _ _ hc
+      have hlen : r.index k < (r.node k).kids.length := by
+        rcases Nat.lt_or_ge (r.index k) (r.node k).kids.length with h' | h'
+        · exact h'
+        · simp [List.getElem?_eq_none h'] at hc
+      rw [hia]
+      refine ⟨hlen, fun j hj => ?_, by omega, ⟨fun h' => by omega, fun h' => by omega⟩,
+        Or.inr ⟨rfl, c, hc, h1, h2⟩⟩
+      rcases Nat.lt_or_ge j (r.index k) with hlt | hge
+      · exact hmin j hlt
+      · have : j = r.index k := by omega
+        subst this; omega
+  obtain ⟨k1, k2, k3, k4, k5⟩ := key
+  refine ⟨k1, k2, k3, ?_, k4, k5⟩
+  symm
+  apply countP_range_threshold _ _ _ k1
+  · intro j hj; simpa using k2 j hj
+  · intro j hj _
+    have := fsize_take_mono (r.node k).kids _ _ hj
+    simp only [decide_eq_false_iff_not, Nat.not_lt]
+    omega
+
+/-! ### text_between with a separator, exactly -/
+
+/-- **text_between(from, to, sep, leaf_text), exactly**: for every child list, range, separator and
+    leaf text the model's result is `sepSpec … true` (Proofs/SepSpec.lean), the specification by
+    recursion on the child list: text and leaf children in range contribute their units / leaf
+    text and clear the `separated` flag (unless the separator is empty); a block element in range
+    contributes the separator exactly when the flag is clear — i.e. when a text or leaf has
+    contributed since the last separator (none is emitted before the first contribution) — and sets
+    it, then its children contribute.  So each separator stands between two contributions, once. -/
+theorem textBetweenSep_exact (S : Schema) (kids : List Node) (f t : Nat) (sep : List Nat)
+    (leafText : Node → List Nat) :
+    textBetweenSep S kids f t sep leafText = (sepSpec S sep leafText kids f t true).1 := by
+  unfold textBetweenSep
+  rw [tbFold_exact S f t sep leafText kids f t 0 0 [] true (by omega) (by simp)]
+  simp
+
+/-- **closed form for blocks of text**: when every node of the list is a block whose children are
+    (non-empty) text nodes, the text of the whole list is the blocks' texts with exactly one
+    separator after every non-empty block except the last block (`joinBlocks`) -/
+theorem textBetweenSep_blocks (S : Schema) (blocks : List Node) (sep : List Nat)
+    (leafText : Node → List Nat) (hB : TextBlocks S blocks) :
+    textBetweenSep S blocks 0 (fsize blocks) sep leafText = joinBlocks sep blocks := by
+  rw [textBetweenSep_exact, sepSpec_blocks S sep leafText blocks hB _ true (Nat.le_refl _)]
+  simp
+
+example : TextBlocks (default : Schema)
+    [.elem 1 [] [] [.text [97] []], .elem 1 [] [] [], .elem 1 [] [] [.text [98, 99] []]] := by
+  intro n hn
+  simp only [List.mem_cons, List.not_mem_nil, or_false] at hn
+  rcases hn with rfl | rfl | rfl <;> exact ⟨_, _, _, _, rfl, rfl, by simp⟩
+
+example : joinBlocks [10]
+    [.elem 1 [] [] [.text [97] []], .elem 1 [] [] [], .elem 1 [] [] [.text [98, 99] []]] =
+    [97, 10, 98, 99] := by decide
 
 end PM.C09
